@@ -3,9 +3,12 @@
    once at the level of the reference (MergeFacts.v) and are what the correspondence judges the
    staged legacy package against on every run (MergePatch vs merge_patch, CreateMergePatch vs diff
    on float-stable numbers, MergeMergePatches vs mm under compatibility, Equal vs jeq on
-   escape-free texts).  The refinement of the legacy model's merge4_n to merge_patch is an open
-   obligation (its v5 counterpart is proved in ImplMergeFacts.v). *)
-From JP Require Import Bytes Json Text Strings Den Rfc7396 ImplV5 ImplMerge ImplV4 JsonFacts MergeFacts.
+   escape-free texts).  The refinement of the legacy model (ImplV4.v) to these references is proved
+   in V4MergeFacts.v (prune4_t, merge4_n in both modes, api_merge4) and V4EqualFacts.v (equal4,
+   api_equal4), on the value aval4 a legacy node denotes (members in the order of the model's
+   association list; marshal4 then sorts the names). *)
+From JP Require Import Bytes Json Text Strings Den Rfc7396 ImplV5 ImplMerge ImplV4 JsonFacts MergeFacts
+  Abs ImplMergeFacts Codec V4MergeFacts V4EqualFacts.
 
 Theorem C19_compose_law : forall d p1 p2,
   onodup d = true -> onodup p1 = true -> onodup p2 = true -> compatible p1 p2 = true ->
@@ -33,6 +36,123 @@ Proof.
   intros a b c Na Nb Nc. split; [apply jeq_refl; auto|]. split; [apply jeq_sym; auto | apply jeq_trans; auto].
 Qed.
 Print Assumptions C19_equality_is_equivalence.
+
+(* ---- the legacy model refines the references ---- *)
+Theorem C19_prune4 : forall t,
+  tnodup t = true -> aval4 (prune4_t t) = merge_patch ONull (den t) /\ nwf4 (prune4_t t).
+Proof. exact prune4_t_spec. Qed.
+Print Assumptions C19_prune4.
+
+Theorem C19_merge4_refines : forall fuel p cur,
+  (tsize p < fuel)%nat -> tnodup p = true -> nwf4 cur ->
+  aval4 (merge4_n fuel false cur p) = merge_patch (aval4 cur) (den p) /\ nwf4 (merge4_n fuel false cur p).
+Proof. exact merge4_n_spec. Qed.
+Print Assumptions C19_merge4_refines.
+
+Theorem C19_merge4_refines_jeq : forall fuel p cur,
+  (tsize p < fuel)%nat -> tnodup p = true -> nwf4 cur ->
+  jeq (aval4 (merge4_n fuel false cur p)) (merge_patch (aval4 cur) (den p)) = true.
+Proof. exact merge4_n_jeq. Qed.
+Print Assumptions C19_merge4_refines_jeq.
+
+Theorem C19_mergemerge4_refines : forall fuel p cur,
+  (tsize p < fuel)%nat -> tnodup p = true -> p <> TNull -> nwf4 cur -> nclean cur = true ->
+  (is_obj (den p) = true -> compatible (aval4 cur) (den p) = true) ->
+  aval4 (merge4_n fuel true cur p) = mm (aval4 cur) (den p) /\ nwf4 (merge4_n fuel true cur p) /\
+  nclean (merge4_n fuel true cur p) = true.
+Proof. exact merge4_n_mm_spec. Qed.
+Print Assumptions C19_mergemerge4_refines.
+
+Theorem C19_MergePatch : forall doc patch td tp,
+  parse doc = Some td -> parse patch = Some tp -> td <> TNull -> tnodup td = true -> tnodup tp = true ->
+  (scalar_text tp = true /\ api_merge4 false doc patch = MErr MBadPatch) \/
+  (scalar_text tp = false /\ exists n, api_merge4 false doc patch = MOut (marshal4 n) /\ nwf4 n /\
+                                       aval4 n = merge_patch (den td) (den tp)).
+Proof. exact api_merge4_spec. Qed.
+Print Assumptions C19_MergePatch.
+
+Theorem C19_MergeMergePatches : forall p1 p2 ms1 t2,
+  parse p1 = Some (TObj ms1) -> parse p2 = Some t2 -> tnodup (TObj ms1) = true -> tnodup t2 = true ->
+  compatible (den (TObj ms1)) (den t2) = true ->
+  (scalar_text t2 = true /\ api_merge4 true p1 p2 = MErr MBadPatch) \/
+  (scalar_text t2 = false /\ exists n, api_merge4 true p1 p2 = MOut (marshal4 n) /\ nwf4 n /\
+                                       aval4 n = mm (den (TObj ms1)) (den t2)).
+Proof. exact api_mergemerge4_spec. Qed.
+Print Assumptions C19_MergeMergePatches.
+
+Theorem C19_MergeMergePatches_composes : forall p1 p2 ms1 t2 d,
+  parse p1 = Some (TObj ms1) -> parse p2 = Some t2 -> tnodup (TObj ms1) = true -> tnodup t2 = true ->
+  compatible (den (TObj ms1)) (den t2) = true -> scalar_text t2 = false -> onodup d = true ->
+  exists n, api_merge4 true p1 p2 = MOut (marshal4 n) /\
+            jeq (merge_patch d (aval4 n)) (merge_patch (merge_patch d (den (TObj ms1))) (den t2)) = true.
+Proof. exact api_mergemerge4_composes. Qed.
+Print Assumptions C19_MergeMergePatches_composes.
+
+(* what is printed: marshal4 n = print true (render4 n), and the rendered tree (member names sorted)
+   denotes the node's value up to member order *)
+Theorem C19_marshalled_tree : forall n, nwf4 n -> nku n ->
+  onodup (den (render4 n)) = true /\ jeq (den (render4 n)) (aval4 n) = true.
+Proof. exact render4_den. Qed.
+Print Assumptions C19_marshalled_tree.
+
+Theorem C19_MergePatch_output : forall doc patch td tp,
+  parse doc = Some td -> parse patch = Some tp -> td <> TNull -> tnodup td = true -> tnodup tp = true ->
+  tsb td -> tsb tp -> scalar_text tp = false ->
+  exists t, api_merge4 false doc patch = MOut (print true t) /\
+            onodup (den t) = true /\ jeq (den t) (merge_patch (den td) (den tp)) = true.
+Proof. exact api_merge4_output. Qed.
+Print Assumptions C19_MergePatch_output.
+
+Theorem C19_MergeMergePatches_output : forall p1 p2 ms1 t2,
+  parse p1 = Some (TObj ms1) -> parse p2 = Some t2 -> tnodup (TObj ms1) = true -> tnodup t2 = true ->
+  tsb (TObj ms1) -> tsb t2 -> compatible (den (TObj ms1)) (den t2) = true -> scalar_text t2 = false ->
+  exists t, api_merge4 true p1 p2 = MOut (print true t) /\
+            onodup (den t) = true /\ jeq (den t) (mm (den (TObj ms1)) (den t2)) = true.
+Proof. exact api_mergemerge4_output. Qed.
+Print Assumptions C19_MergeMergePatches_output.
+
+Theorem C19_null_rejected : forall mm doc patch td tp,
+  parse doc = Some td -> parse patch = Some tp ->
+  (td = TNull -> api_merge4 mm doc patch = MErr MBadDoc) /\
+  (td <> TNull -> tp = TNull -> api_merge4 mm doc patch = MErr MBadPatch).
+Proof. exact api_merge4_null_rejected. Qed.
+Print Assumptions C19_null_rejected.
+
+Theorem C19_node_equal4 : forall n o, good4 n -> good4 o -> node_equal4 n o = jeq (aval4 n) (aval4 o).
+Proof. exact node_equal4_spec. Qed.
+Print Assumptions C19_node_equal4.
+
+Theorem C19_Equal : forall a b ta tb,
+  parse a = Some ta -> parse b = Some tb -> tnodup ta = true -> tnodup tb = true ->
+  tplain ta = true -> tplain tb = true ->
+  api_equal4 a b = Some (jeq (den ta) (den tb)).
+Proof. exact api_equal4_spec. Qed.
+Print Assumptions C19_Equal.
+
+(* without the hypothesis on strings one direction remains: what legacy Equal accepts is equal *)
+Theorem C19_Equal_sound : forall a b ta tb,
+  parse a = Some ta -> parse b = Some tb -> tnodup ta = true -> tnodup tb = true ->
+  api_equal4 a b = Some true -> jeq (den ta) (den tb) = true.
+Proof. exact api_equal4_sound. Qed.
+Print Assumptions C19_Equal_sound.
+
+Theorem C19_node_equal4_sound : forall n o,
+  good4w n -> good4w o -> node_equal4 n o = true -> jeq (aval4 n) (aval4 o) = true.
+Proof. exact node_equal4_sound. Qed.
+Print Assumptions C19_node_equal4_sound.
+
+(* ASCII strings without a backslash are spelled as they decode *)
+Theorem C19_plain_strings : forall b, forallb plain_byte b = true -> unquote b = b.
+Proof. exact unquote_ascii_plain. Qed.
+Print Assumptions C19_plain_strings.
+
+(* the hypothesis on strings cannot be dropped: legacy Equal compares spellings *)
+Theorem C19_Equal_compares_spellings :
+  node_equal4 (NRaw (TStr (B "\/"))) (NRaw (TStr (B "/"))) = false /\
+  jeq (aval4 (NRaw (TStr (B "\/")))) (aval4 (NRaw (TStr (B "/")))) = true /\
+  api_equal4 (B "{""a"":""\/""}") (B "{""a"":""/""}") = Some false.
+Proof. exact equal4_naive_false_strings. Qed.
+Print Assumptions C19_Equal_compares_spellings.
 
 Example C19_nonvacuous :
   api_merge4 false (B "{""b"":{""x"":1,""y"":2},""a"":1}") (B "{""b"":{""x"":null,""z"":[null]},""c"":{""d"":null}}")
